@@ -342,6 +342,7 @@ class NFA(fa.FA):
         new_transitions = {
             state: {symbol: set(dest) for symbol, dest in paths.items()}
             for state, paths in self.transitions.items()
+            if state in self.states
         }
         new_final_states = set(self.final_states)
         lambda_closures = self._get_lambda_closures()
